@@ -33,7 +33,7 @@ COMPONENTS = [
      ['AsyncReq.tla', 'AsyncReqHB.tla', 'MCAsyncReqHB.tla', 'MC_hb1.cfg', 'MC_hb2.cfg', 'MC_hb3.cfg', 'MC_hb_pub1.cfg', 'MC_hb_pub2.cfg'],
      ['async_request.h'], 'OrdersAsyncReq', 'MCAsyncReqHB.tla',
      [('MC_hb1.cfg', 'AsyncRequest 1 consumer + 1 producer, up to 4 rounds (slot reused), polling on both sides', 'quick'),
-      ('MC_hb2.cfg', 'AsyncRequest 2 consumers x 2 producers, all operations, request/emplace/get of a round by different threads', 'quick'),
+      ('MC_hb2.cfg', 'AsyncRequest 2 consumers x 2 producers, all operations, request/emplace/get of a round by different threads', 'thorough'),
       ('MC_hb3.cfg', 'AsyncRequest 2 consumers + 1 producer, std::optional with trivially movable T (move only reads obj_)', 'thorough'),
       ('MC_hb_pub1.cfg', 'AsyncRequest publishing request data: 1 consumer, 1 producer reading after updateRequested()/tryEmplaceUpdate()', 'quick'),
       ('MC_hb_pub2.cfg', 'AsyncRequest publishing request data: 1 consumer, 2 producers', 'thorough')]),
@@ -61,14 +61,40 @@ COMPONENTS = [
      [('MC_hbx_two.cfg', 'Future: queue runner vs inline waiter, 2 owners get + destroy', 'quick'),
       ('MC_hbx_then.cfg', 'Future::then before/while/after completion, continuation read by main', 'quick'),
       ('MC_hbx_drop.cfg', 'creator drops its handle while the queue thread runs the functor', 'quick'),
-      ('MC_hbx_wanyt.cfg', 'when_any tuple overload', 'quick'),
-      ('MC_hbx_wallt.cfg', 'when_all tuple overload', 'quick'),
+      ('MC_hbx_wanyt.cfg', 'when_any tuple overload', 'thorough'),
+      ('MC_hbx_wallt.cfg', 'when_all tuple overload', 'thorough'),
       ('MC_hbx_then2.cfg', 'two threads push on one then-chain (push/take CAS failures)', 'thorough'),
       ('MC_hbx_wall2.cfg', 'when_all of 2 inputs (iterators)', 'thorough'),
       ('MC_hbx_wany.cfg', 'when_any of 2 inputs (iterators)', 'thorough'),
       ('MC_hbx_timed.cfg', 'wait_for / wait_until / is_ready', 'thorough'),
       ('MC_hbx_wall.cfg', 'when_all + destruction of inputs', 'thorough'),
       ('MC_hbx_wany3.cfg', 'when_any, 2 queue threads + getter', 'thorough')]),
+    ('sba', 'spec/sba', ['Sba.tla', 'SbaHB.tla', 'MCSbaHB.tla', 'MC_hb1.cfg', 'MC_hb2.cfg', 'MC_hb3.cfg'],
+     ['detail/small_buffer_allocator_impl.h', 'small_buffer_allocator.cpp'], 'OrdersSba', 'MCSbaHB.tla',
+     [('MC_hb1.cfg', 'SmallBufferAllocator backingStoreLock: 2 grabbers (ticket winner/loser+spin, 2nd malloc) that also call bytesAllocated + 1 diagnostics thread x2 (failed CAS); backingStore vector under the lock', 'quick'),
+      ('MC_hb2.cfg', 'SmallBufferAllocator: batch larger than a slab (same thread mallocs twice, up to 3 slabs), both threads writer and reader of backingStore', 'thorough'),
+      ('MC_hb3.cfg', 'SmallBufferAllocator: 3 grabbers, each also bytesAllocated', 'thorough')]),
+    ('poolalloc', 'spec/poolalloc', ['PoolAlloc.tla', 'PoolAllocHB.tla', 'MCPoolAllocHB.tla', 'MC_hb1.cfg', 'MC_hb2.cfg', 'MC_hb3.cfg'],
+     ['pool_allocator.cpp', 'pool_allocator.h'], 'OrdersPoolAlloc', 'MCPoolAllocHB.tla',
+     [('MC_hb1.cfg', 'PoolAllocator 2 chunks/slab: 3 threads alloc (slab + free-list path)/dealloc (own chunk, chunk of an earlier phase), chunk memory reused across threads; then clear/cap/recycled+fresh slabs single-threaded; destructor', 'thorough'),
+      ('MC_hb2.cfg', 'PoolAllocator 1 chunk/slab: every reuse goes dealloc -> alloc of another thread, clear() twice', 'quick'),
+      ('MC_hb3.cfg', 'PoolAllocator 3 chunks/slab, 3 threads, two concurrent phases with cross-phase dealloc', 'thorough')]),
+    ('cvec', 'spec/cvec', ['CVec.tla', 'CVecHB.tla', 'MCCVecHB.tla', 'MC_hb1.cfg', 'MC_hb2.cfg', 'MC_hb3.cfg', 'MC_hb4.cfg', 'MC_hbx_iterend.cfg'],
+     ['concurrent_vector.h', 'detail/concurrent_vector_impl.h', 'detail/concurrent_vector_impl2.h'], 'OrdersCVec', 'MCCVecHB.tla',
+     [('MC_hb1.cfg', 'ConcurrentVector push/emplace_back: 2 growers x 2, trigger + first index of the new bucket, 3 strategies, cachedPtrs on/off, both iterator kinds, reader of handed-over elements', 'thorough'),
+      ('MC_hb2.cfg', 'ConcurrentVector grow_by(range/value)/grow_to_at_least + push, 3 strategies + pre-allocated bucket, reader', 'quick'),
+      ('MC_hb4.cfg', 'readers stepping off the end of handed-over ranges: kAsNeeded single path, range path all strategies', 'quick'),
+      ('MC_hbx_iterend.cfg', 'iterator ++ past the last element of a bucket with look-ahead allocation (fixed by 84af4de: reads buffers_, not cachedPtrs_)', 'quick'),
+      ('MC_hb3.cfg', '3 growers (push, grow_by_generator, grow_to_at_least) + size()/end()/element observer, 4 configurations', 'thorough')]),
+    ('arena', 'spec/arena',
+     ['Arena.tla', 'ArenaHB.tla', 'MCArenaHB.tla', 'MC_hb1.cfg', 'MC_hb2.cfg', 'MC_hb3.cfg', 'MC_hb_nb_rest.cfg', 'MC_hbx_nb.cfg'],
+     ['concurrent_object_arena.h'], 'OrdersArena', 'MCArenaHB.tla',
+     [('MC_hb1.cfg', 'ConcurrentObjectArena buffer size 2: buffer entered in place into the published table, lock-free grower, hand-over readers, size/capacity, copy / copy-assign / destroy', 'quick'),
+      ('MC_hb3.cfg', 'ConcurrentObjectArena buffer size 2: grow_by(4) = in-place + table doubling in one critical section, 3 growers, copy/swap/move', 'quick'),
+      ('MC_hb2.cfg', 'ConcurrentObjectArena buffer size 1, table 2->4->8: operator[] / getBuffer on old elements while the table is doubled twice', 'thorough'),
+      ('MC_hb_nb_rest.cfg', 'program with a concurrent numBuffers(): all locations except buffersPos_', 'quick'),
+      # violated on the current sources: open known finding (numBuffers() reads the plain buffersPos_)
+      ('MC_hbx_nb.cfg', 'numBuffers() ("Concurrency safe") vs allocateBuffer(): plain buffersPos_', 'quick')]),
 ]
 # components whose code uses std::atomic_thread_fence: composed with spec/lib/MemOrderF.tla.  `tentative` cfgs additionally
 # count the discarded tentative reads of losing stealers: a violation there is replayed on the real deque and reported
